@@ -5,13 +5,19 @@ ID = "C08"
 GEN = "c08"
 HARNESS_TEST = "TestC08.*"
 COQ_MODEL = ["C08/Check.v", "Gen/C08Facts.v"]
-COQ_PROOF_DEPS = ["C08/Proofs.v", "C08/Examples.v"]
+COQ_PROOF_DEPS = ["C08/Proofs.v", "C08/ProofsTx.v", "C08/Examples.v"]
 COQ_OBLIG = ["C08/Property.v", "Gen/C08Oblig.v"]
 CASES_HEADER = "Require Import Nib.C08.Model Nib.C08.Spec Nib.C08.Check Nib.Gen.C08Facts."
 CASE_TYPE = "case"
 MISMATCH_FN = "mismatch current_facts"
 VIOLATES_FN = "violates current_facts"
-RULE = ("case = one call to a Nibiru precompile: (FunToken|Wasm|Oracle) x call kind (top-level evm.Call, CALL / STATICCALL / "
+RULE = ("case = one call to a Nibiru precompile, alone or as the LAST step of a transaction of several steps on one StateDB "
+        "(38 % of the generated cases, 63 openers and 7 DeliverTx script transactions: 1-4 earlier steps - successful queries, successful state-changing calls, calls failing early, "
+        "calls failing after partial writes, journaled EVM state changes (SSTORE / value transfer / log) - or 8-11 queries around the "
+        "StateDB's budget of 10 precompile calls; the call under test then is a state-changing call failing AFTER partial writes to the bank / "
+        "wasm stores [executeMulti with a rejected later message, execute / instantiate rejected after the funds moved, sendToBank whose final "
+        "bank send is refused after MintCoins], a good state-changing call with the forwarded gas swept below its cost, a query, or any "
+        "generated call; state_eq compares what the transaction commits with and without its last call); one call: (FunToken|Wasm|Oracle) x call kind (top-level evm.Call, CALL / STATICCALL / "
         "DELEGATECALL / CALLCODE issued by a hand-assembled forwarder contract, CALL below a STATICCALL frame) x attached value "
         "(0, 1 wei, 1 unibi) x forwarded gas (ample, RequiredGas-1, RequiredGas, RequiredGas+small, tiny) x calldata (empty, 1-3 bytes, "
         "unknown selector, every ABI method with well-formed hostile arguments / truncated / oversized / one ABI word overwritten / "
@@ -23,15 +29,21 @@ ASSUMPTIONS = [
     "bech32 / tokenfactory-denom / JSON validity bits attached to decoded strings are computed by the library functions the code calls",
     "keeper-level bodies behind the validators (bank, wasm, ERC20 calls) are an oracle in the model: outcome class and gas used are read off the trace; "
     "their panic freedom is searched by the generator only",
-    "state reversal on a failed call is the StateDB snapshot/revert of C04 (digest compared after StateDB.Commit on a branch of the world)",
+    "reversal of the EVM side of the state (state objects) on a failed call is the StateDB journal of C04; reversal of the other modules' stores is "
+    "modelled explicitly (journaled multistore snapshot per call, RevertToSnapshot) and the digest is compared after StateDB.Commit on branches of the world",
+    "earlier steps of a transaction enter the model with their observed outcome class and gas only (their own effect on the stores is not compared; "
+    "each kind of step is the call under test of other cases)",
 ]
 TRUSTED = [
     "geth accounts/abi (used by the fact extractor for selectors and by the harness for decoding)",
-    "canonical store digest: sha256 over all keys/values of the bank, evm, wasm, oracle KV stores",
+    "canonical store digest: sha256 over all keys/values of the bank, evm, wasm, oracle KV stores; a contract storage slot holding the zero word "
+    "counts as absent (the keeper never deletes storage entries, both encode the same EVM state)",
 ]
 HARNESS_TIMEOUT = {"quick": 600, "thorough": 3600}
 
-_KIND = {"top": "KTop", "tx": "KTop", "call": "(KCall false)", "nested": "(KCall true)", "static": "KStatic",
+_MUTATING = {"sendToBank", "sendToEvm", "bankMsgSend", "execute", "instantiate", "executeMulti"}
+
+_KIND = {"top": "KTop", "tx": "KTop", "txcall": "(KCall false)", "call": "(KCall false)", "nested": "(KCall true)", "static": "KStatic",
          "delegate": "KDelegate", "callcode": "KCallCode"}
 _PC = ["PFunToken", "PWasm", "POracle"]
 _CLASS = {"ok": "Ok", "err": "Err", "oog": "OutOfGas", "panic": "Panic"}
@@ -70,19 +82,29 @@ def _arg(a):
     return "AAddr"
 
 
-def to_coq_case(rec):
-    i, o = rec["input"], rec["obs"]
-    data = bytes.fromhex(i["data"])
+def _call(i, o):
+    """Coq term of type `call`: one precompile call with what was observed of it (i: pc/kind/value/data, o: observation)"""
+    data = bytes.fromhex(i.get("data", ""))
     unpack = "None"
-    if o["unpack_ok"]:
-        unpack = "(Some [%s])" % "; ".join(_arg(a) for a in o["args"])
+    if o.get("unpack_ok"):
+        unpack = "(Some [%s])" % "; ".join(_arg(a) for a in o.get("args") or [])
     inp = "{| i_len := (%d)%%Z; i_head := %s; i_unpack := %s |}" % (len(data), _bytes(data[:4]), unpack)
-    pc = _PC[i["pc"] if 0 <= i["pc"] <= 2 else 0]
-    value = int(i["value"]) if i["kind"] in ("top", "tx", "call", "callcode") else 0
+    pc = _PC[i["pc"] if 0 <= i.get("pc", 0) <= 2 else 0]
+    kind = i.get("kind") or "top"
+    value = int(i.get("value") or 0) if kind in ("top", "tx", "call", "callcode") else 0
     return ("{| c_reached := %s; c_pc := %s; c_kind := %s; c_value := %s; c_gas := %s; c_inp := %s; "
             "o_class := %s; o_left := %s; o_state_eq := %s; o_core_eq := %s; o_oog_panic := %s; o_cost := %s; o_mint_panic := %s |}") % (
-        _b(o["reached"]), pc, _KIND.get(i["kind"], "KTop"), _z(value), _z(o["fwd"]), inp,
-        _CLASS.get(o["class"], "Err"), _z(o["left"]), _b(o["state_eq"]), _b(o["core_eq"]), _b(o["panic_oog"]), ("(Some %s)" % _z(o["cost"])) if o.get("cost") else "None", _b(o.get("panic_int")))
+        _b(o.get("reached")), pc, _KIND.get(kind, "KTop"), _z(value), _z(o.get("fwd", 0)), inp,
+        _CLASS.get(o.get("class"), "Err"), _z(o.get("left", 0)), _b(o.get("state_eq", True)), _b(o.get("core_eq", True)), _b(o.get("panic_oog")),
+        ("(Some %s)" % _z(o["cost"])) if o.get("cost") else "None", _b(o.get("panic_int")))
+
+
+def to_coq_case(rec):
+    i, o = rec["input"], rec["obs"]
+    pre = []
+    for st, so in zip(i.get("pre") or [], o.get("pre") or []):
+        pre.append("PEvm" if st.get("evm") else "PCall %s" % _call(st, so))
+    return "{| c_pre := [%s]; c_call := %s; c_drop_eq := %s |}" % ("; ".join(pre), _call(i, o), _b(o.get("drop_eq", True)))
 
 
 def nontrivial(rec):
@@ -91,6 +113,20 @@ def nontrivial(rec):
         return False
     n = len(i["data"]) // 2
     return n < 4 or o["unpack_ok"]
+
+
+def _pre_shape(i, o):
+    """the earlier steps of the transaction as a short word: q = successful query, m = successful state-changing call,
+    f = failed call, e = EVM state change"""
+    out = ""
+    for st, so in zip(i.get("pre") or [], o.get("pre") or []):
+        if st.get("evm"):
+            out += "e"
+        elif so.get("class") != "ok":
+            out += "f"
+        else:
+            out += "m" if so.get("method") in _MUTATING else "q"
+    return out
 
 
 def classify(rec):
@@ -104,14 +140,23 @@ def classify(rec):
         ks.append("outcome:%s/%s" % (o["method"], o["class"]))
     if not o["reached"]:
         ks.append("not-reached")
+    if i.get("pre"):
+        sh = _pre_shape(i, o)
+        ks.append("tx:steps-before=%s" % (len(sh) if len(sh) < 5 else "5+"))
+        ks.append("tx:directly-behind=" + {"q": "query", "m": "mutation", "f": "failed-call", "e": "evm-change"}.get(sh[-1:], "-"))
+        if o["method"] in _MUTATING and o["class"] in ("err", "oog"):
+            ks.append("tx:failed-mutation-behind=" + (sh if len(sh) < 4 else sh[-3:] + "+"))
+        if o["method"] in _MUTATING and o["class"] in ("err", "oog") and o.get("unpack_ok") and i["kind"] in ("top", "call"):
+            ks.append("tx:failed-mutation-body-reached")
+        if "f" in sh and len(sh.replace("e", "")) < 10:
+            ks.append("tx:rerun-without-failed-earlier-calls")
+    else:
+        ks.append("tx:single-call")
     return ks
 
 
 def describe(rec):
     return {"input": rec["input"], "observed": {k: v for k, v in rec["obs"].items() if k != "args"}}
-
-
-_MUTATING = {"sendToBank", "sendToEvm", "bankMsgSend", "execute", "instantiate", "executeMulti"}
 
 
 def signature(rec):
@@ -141,8 +186,13 @@ def signature(rec):
         return {"kind": "static-context-mutation", "via": "STATICCALL>CALL", "precompile": pc}
     if i["kind"] in ("static", "delegate", "callcode") and (not o["state_eq"] or (o["class"] == "ok" and o.get("method") in _MUTATING)):
         return {"kind": "static-context-mutation", "via": i["kind"].upper(), "precompile": pc, "method": o.get("method")}
+    if not o.get("drop_eq", True):
+        return {"kind": "failed-call-visible-to-rest-of-tx", "precompile": pc, "method": o.get("method"), "earlier_steps": _pre_shape(i, o)[-4:]}
     if o["class"] in ("err", "oog") and not o["state_eq"]:
-        return {"kind": "failed-call-left-state", "precompile": pc, "method": o.get("method"), "call": i["kind"]}
+        sig = {"kind": "failed-call-left-state", "precompile": pc, "method": o.get("method"), "call": i["kind"]}
+        if i.get("pre"):
+            sig["directly_behind"] = {"q": "query", "m": "mutation", "f": "failed-call", "e": "evm-change"}.get(_pre_shape(i, o)[-1:], "-")
+        return sig
     if o["left"] > o["fwd"]:
         return {"kind": "gas-exceeds-forwarded", "precompile": pc, "method": o.get("method")}
     if o["class"] == "ok" and o.get("cost") and o["fwd"] - o["left"] != int(o["cost"]):
@@ -152,11 +202,18 @@ def signature(rec):
 
 
 def input_size(inp):
-    return len(inp["data"]) + (0 if inp["value"] == "0" else 5) + (0 if inp["gas"] in (1000000, 3000000) else 3)
+    return (len(inp["data"]) + (0 if inp["value"] == "0" else 5) + (0 if inp["gas"] in (1000000, 3000000) else 3)
+            + sum(20 + len(st.get("data", "")) for st in inp.get("pre") or []))
 
 
 def shrink_candidates(inp):
     out = []
+    # a shorter transaction first: drop one earlier step, keep only the last one
+    pre = inp.get("pre") or []
+    for k in range(len(pre)):
+        out.append(dict(inp, pre=pre[:k] + pre[k + 1:]))
+    if len(pre) > 1:
+        out.append(dict(inp, pre=pre[-1:]))
     data = inp["data"]
     n = len(data) // 2
     # drop trailing 32-byte words / bytes, zero a word, simplify gas / value / kind
@@ -173,7 +230,7 @@ def shrink_candidates(inp):
         out.append(dict(inp, gas=3000000))
     if inp["value"] != "0":
         out.append(dict(inp, value="0"))
-    if inp["kind"] not in ("top", "nested", "static"):
+    if inp["kind"] not in ("top", "nested", "static", "tx", "txcall"):
         out.append(dict(inp, kind="top"))
     return out
 
@@ -188,14 +245,22 @@ MANIFEST = {
                  "ABI-decoder result, call kind, value and gas: C08_gas_bounded (0 <= gas left <= forwarded), C08_error_leaves_no_state "
                  "(error or out-of-gas => state exactly as before and all gas consumed), C08_static_never_mutates (read-only call kinds: "
                  "state unchanged, every non-view method refused), C08_query_never_mutates / C08_guarded_query_never_mutates, "
+                 "and over SEQUENCES of calls inside one transaction (Model.v Section Tx: the journal of the shared StateDB, the multistore "
+                 "snapshot OnRunStart appends per call, the call counter, RevertToSnapshot): C08_failed_call_leaves_no_state_in_tx (after any "
+                 "list of earlier calls / EVM state changes, from any journal: a failed call gives back both sides of the state and the journal "
+                 "exactly, whatever its body wrote before failing), C08_call_in_tx_is_single_call (a call after any history is the single call "
+                 "of the other theorems on the state the history left), C08_call_budget_fails_closed, C08_tx_call_satisfies_property; "
+                 "refutation C08_failed_call_leaves_state_refuted_with_coalesced_snapshots for the variant that keeps the previous snapshot; "
                  "C08_no_panic_partial (every modelled panic source - input[:4], sdk.NewCoin, NewIntFromBigInt, collections string keys, "
                  "256-bit bank supply under MintCoins, the gas meter panic - is unreachable behind its guard), C08_model_satisfies_property "
                  "(the trace predicate Pb checks holds of every model run). The facts (ABI methods and selectors from the embedded JSON, "
-                 "isMutation table, per-handler guard and its position, dispatch, the six panic guards, geth's read-only arguments) are "
+                 "isMutation table, per-handler guard and its position, dispatch, the six panic guards, geth's read-only arguments, and from "
+                 "x/evm/statedb that SavePrecompileCalledJournalChange appends its snapshot on every call and the call budget) are "
                  "re-extracted from /repo and the go-ethereum fork on every run and the instantiated theorems C08_holds_for_current_tree / "
                  "C08_current_*_ok are re-checked. Refutation witnesses are proved for the tree before each of the four fix: commits. "
-                 "The model is run against the implementation on ~640 generated calls per quick run (structure-aware hostile calldata x "
-                 "6 call kinds x value x gas boundaries, plus a method x call-kind matrix and 15 DeliverTx cases): outcome class and gas "
+                 "The model is run against the implementation on ~860 cases per quick run (structure-aware hostile calldata x "
+                 "6 call kinds x value x gas boundaries, a method x call-kind matrix, 15 DeliverTx cases, and ~240 transactions of several steps "
+                 "on one StateDB whose last call is the one under test): outcome class and gas "
                  "handed back must agree exactly, and the proved-sound checker Pb is evaluated on the implementation traces with a digest "
                  "of the bank/evm/wasm/oracle stores before and after."),
         "design_ref": "DESIGN.md §5 C08",
@@ -208,8 +273,8 @@ MANIFEST = {
                    "EVM.Call passes readOnly=false (OPEN known finding, C08_nested_static_refuted / C08_nested_static_status_on_current_tree; "
                    "C08_nested_static_if_inherited proves the clause once the flag is handed down). Hypotheses of the theorems: keeper query "
                    "APIs behind view methods do not write (query_bodies_readonly; checked per case by the store digest), the ABI decoder "
-                   "returns values within their Solidity ranges (input_wf). State reversal on error is C04's StateDB snapshot, modelled as "
-                   "restoring the pre-call state. Trusted: Coq kernel + vm_compute; the go/ast extractor harness/gen/c08 (textual normal forms) "
+                   "returns values within their Solidity ranges (input_wf). Reversal of the EVM side of the state on error is C04's StateDB journal, "
+                   "modelled as restoring it; reversal of the other modules' stores is modelled through the journaled multistore snapshots. Trusted: Coq kernel + vm_compute; the go/ast extractor harness/gen/c08 (textual normal forms) "
                    "and geth accounts/abi; the driver's decode facts (geth ABI decoder, bech32 / tokenfactory / JSON validity bits) and store "
                    "digest. Not modelled: the ABI decoder itself, keeper bodies, uint64 overflow in requiredGas, depth/balance rejections."),
     "technique": "Coq proof over a model of the geth precompile wrapper + Nibiru dispatch/guard code parameterised by generated facts; "
